@@ -164,7 +164,10 @@ def _mapping(fn: ast.AST, rshapes) -> Dict[str, str]:
     # never rename onto a name that stays in use by another (unmapped) local or a parameter
     cur_names = {c[0] for c in cur}
     params = {x.arg for x in fn.args.args + fn.args.kwonlyargs}
-    safe = {c: r for c, r in mapping.items() if (r not in cur_names or r in mapping) and r not in params}
+    # ... nor onto a name the function mentions without binding it (a global, a builtin, or a local whose binding was removed):
+    # the rename would capture that use
+    mentioned = {n.id for n in ast.walk(fn) if isinstance(n, ast.Name)} | {a.arg for n in ast.walk(fn) if isinstance(n, ast.Lambda) for a in n.args.args}
+    safe = {c: r for c, r in mapping.items() if (r not in cur_names or r in mapping) and r not in params and (r not in mentioned or r in mapping)}
     # a chain a->b, b->c is fine (simultaneous substitution); a->b with b unmapped was excluded above
     if len(set(safe.values())) != len(safe):
         return {}
